@@ -2,7 +2,7 @@
 from .spec import ESpec, VSpec, hx
 from .strcorpus import FIELD_NAMES
 
-KINDS = [('unit', []), ('tuple', ['u8']), ('named', ['i32', 'String']), ('tuple', ['bool', 'OptU8', 'u16']), ('named', ['u8']),
+KINDS = [('unit', []), ('tuple', ['u8']), ('named', ['i32', 'String']), ('tuple', ['Host', 'OptU8', 'u16']), ('named', ['u8']),
          ('tuple', []), ('named', [])]   # `V()` and `V {}` are legal variants too
 
 # disabled placements as predicates over (position, n)
